@@ -82,7 +82,26 @@ fn check_pair(prop: &str, space: &str, choices: &[u32], p: &Pair, rep: &Report, 
     let b_src = p.variant.render();
     rep.eval(2);
     rep.states.add_of(&(&a_src, &b_src));
-    let a = expand_item(&a_src);
+    // the base expansion is shared by all rewrites of one base input: small per-thread cache
+    thread_local! { static CACHE: std::cell::RefCell<std::collections::VecDeque<(u64, Out)>> = std::cell::RefCell::new(std::collections::VecDeque::new()); }
+    let key = crate::report::h64(&a_src);
+    let cached = CACHE.with(|c| c.borrow().iter().find(|x| x.0 == key).map(|x| x.1.clone()));
+    let a_out = match cached {
+        Some(o) => o,
+        None => {
+            let o = expand_item(&a_src).out;
+            CACHE.with(|c| {
+                let mut c = c.borrow_mut();
+                c.push_back((key, o.clone()));
+                if c.len() > 16 {
+                    c.pop_front();
+                }
+            });
+            o
+        }
+    };
+    struct A { out: Out }
+    let a = A { out: a_out };
     let b = expand_item(&b_src);
     rep.validate(1);
     rep.outputs.add_of(&a.out);
@@ -112,7 +131,8 @@ fn run_meta(prop: &str, tier: &str, rule: &str, extra_bound: usize, which: u8) -
     let caps = Caps::from_env(if tier == "quick" { 150.0 } else { 1500.0 });
     for sp in corpus::spaces(tier) {
         let name = format!("{}/{}", if which == 12 { "shortcuts" } else { "spellings" }, sp.name);
-        let bound = sp.bound;
+        // the every-name spaces are large: one deviation less for the (wider) respelling product in the quick tier
+        let bound = if which == 13 && tier == "quick" && sp.name.starts_with("names-") { sp.bound.map(|b| b.saturating_sub(1)) } else { sp.bound };
         let bound2 = if tier == "quick" { Some(extra_bound) } else { Some(extra_bound + 1) };
         let st = explore2(
             |ctx| if which == 12 { gen_c12(ctx, &*sp.gen) } else { gen_c13(ctx, &*sp.gen) },
